@@ -427,6 +427,9 @@ mod sim {
     pub struct Sched {
         m: Mutex<St>,
         cv: Condvar,
+        /// interleave also at the accessor yield points inside code generation
+        fine: bool,
+        fine_points: std::sync::atomic::AtomicU64,
     }
 
     impl Sched {
@@ -571,6 +574,14 @@ mod sim {
                 self.0.cv.notify_all();
             }
         }
+        fn yield_point(&self, _site: &'static str) {
+            if !self.0.fine {
+                return;
+            }
+            let Some(tid) = Sched::me() else { return };
+            self.0.fine_points.fetch_add(1, std::sync::atomic::Ordering::Relaxed);
+            self.0.park(tid, Th::Ready);
+        }
         fn fault_point(&self, site: &'static str, path: &std::path::Path) -> Option<std::io::Error> {
             let tid = Sched::me()?;
             let p = path.display().to_string();
@@ -678,6 +689,8 @@ mod sim {
                 degraded: 0,
             }),
             cv: Condvar::new(),
+            fine: plan["schedule"]["fine"].as_bool().unwrap_or(false),
+            fine_points: std::sync::atomic::AtomicU64::new(0),
         });
         assert!(verif_hooks::register(Box::new(Hook(sched.clone()))));
 
@@ -772,8 +785,11 @@ mod sim {
             "stop": stopped,
             "degraded": st.degraded,
             "outcomes": res.iter().map(|t| t.iter().map(|o| match o { Some(o) => o.to_json(dump), None => Value::Null }).collect::<Vec<_>>()).collect::<Vec<_>>(),
-            "decisions": st.decisions,
-            "enabled": st.enabled_counts,
+            "decisions": if sched.fine && !plan["want_decisions"].as_bool().unwrap_or(false) { json!(null) } else { json!(st.decisions) },
+            "decision_count": st.decisions.len(),
+            "decisions_fp": simcore::fingerprint(st.decisions.iter().map(|d| (*d as u8).wrapping_add(48)).collect::<Vec<u8>>().as_slice()),
+            "enabled": if sched.fine { json!(null) } else { json!(st.enabled_counts) },
+            "fine_yield_points": sched.fine_points.load(std::sync::atomic::Ordering::Relaxed),
             "log_hash": simcore::fingerprint(log.as_bytes()),
             "lock_order": st.lock_order.join(" "),
             "injected": st.injected.iter().map(|(t,c,s,p)| json!({"thread":t,"call":c,"site":s,"path":p})).collect::<Vec<_>>(),
